@@ -100,6 +100,25 @@ Definition tk_case (cs : list N) : option pk_case :=
   | _ => None
   end.
 
+(* shared subscriptions (MQTT 4.8.2): a v5.0 SUBSCRIBE / UNSUBSCRIBE filter that starts with "$share/" has a
+   non-empty ShareName without '+' and '#', followed by '/' and a filter — enforced by builder and parser alike *)
+Definition share_rest (f : bytes) : option bytes :=
+  match f with 36 :: 115 :: 104 :: 97 :: 114 :: 101 :: 47 :: rest => Some rest | _ => None end.
+Fixpoint share_name (l : bytes) : bytes := match l with [] => [] | x :: t => if x =? 47 then [] else x :: share_name t end.
+Definition share_ok (f : bytes) : bool :=
+  match share_rest f with
+  | None => true
+  | Some rest =>
+    existsb (N.eqb 47) rest && negb (match share_name rest with [] => true | _ => false end)
+    && negb (existsb (fun x => (x =? 43) || (x =? 35)) (share_name rest))
+  end.
+Definition share_rule (v : ver) (b : body) : bool :=
+  match v, b with
+  | PV50, BSubscribe _ _ es => forallb (fun e => share_ok (fst e)) es
+  | PV50, BUnsubscribe _ _ fs => forallb share_ok fs
+  | _, _ => true
+  end.
+
 (* the library's side of a built packet: bytes size bufcat_ok reparse_eq consumed_ok acc_eq *)
 Definition V_REJECT_DIFF : N := 910.
 Definition V_BYTES : N := 911.
@@ -110,7 +129,7 @@ Definition chk_pk (cs : list N) : list N :=
   match tk_case cs with
   | None => [0; V_BADCASE]
   | Some c =>
-    let ok := packet_ok (pc_ver c) (pc_idw c) (pc_body c) in
+    let ok := packet_ok (pc_ver c) (pc_idw c) (pc_body c) && share_rule (pc_ver c) (pc_body c) in
     match pc_rest c with
     | [0] => if ok then [0; V_REJECT_DIFF; 1] else []
     | 1 :: r =>
@@ -163,7 +182,7 @@ Definition mon_c03 (cs : list N) : list N :=
   | None => [0; V_BADCASE]
   | Some c =>
     match pc_rest c with
-    | [0] => if packet_ok (pc_ver c) (pc_idw c) (pc_body c) then [0; V_MONITOR; 6] else []   (* a packet the specification allows is refused *)
+    | [0] => if packet_ok (pc_ver c) (pc_idw c) (pc_body c) && share_rule (pc_ver c) (pc_body c) then [0; V_MONITOR; 6] else []   (* a packet the specification allows is refused *)
     | [2] => [0; V_MONITOR; 1]
     | 1 :: r =>
       match tk_lp r with
@@ -196,6 +215,7 @@ Definition tk_pm (cs : list N) : option pm_case :=
 (* the library's extensions that are self-consistent and that its builders accept as well:
    a reason code on the v3.1.1 acknowledgements *)
 Definition body_ok_lib (v : ver) (idw : N) (b : body) : bool :=
+  share_rule v b &&
   match v, b with
   | PV311, BAck t pid tl =>
     (4 <=? t) && (t <=? 7) && pid_ok idw pid
@@ -248,7 +268,7 @@ Definition chk_c04 (cs : list N) : list N :=
   | Some c =>
     let fh := pm_fh c in
     let spec := match decode_body (pm_ver c) (pm_idw c) (fh / 16) (fh mod 16) (pm_body c) with
-                | Some b => if body_ok (pm_ver c) (pm_idw c) b then Some b else None
+                | Some b => if body_ok (pm_ver c) (pm_idw c) b && share_rule (pm_ver c) b then Some b else None
                 | None => None end in
     match pm_rest c with
     | [2] => [0; V_PANIC_IMPL_ONLY]
